@@ -167,8 +167,8 @@ theorem run_showNat (acc : LPath) (neg : Bool) (st0 : St) (n : Nat) (rest : List
   have hne := natDigitsAux_ne_nil n n []
   have hlt := natDigits_lt10 n
   have hval := natDigits_val n
-  unfold natDigits at hlt hval
-  generalize natDigitsAux n n [] = ds at hne hlt hval
+  unfold natDigits at hlt hval ⊢
+  generalize natDigitsAux n n [] = ds at hne hlt hval ⊢
   cases ds with
   | nil => exact absurd rfl hne
   | cons d ds =>
@@ -237,7 +237,7 @@ theorem run_keyBody (acc : LPath) (s rest : List Char) :
     rw [run_cons]
     have h1 : delta (.afterDot acc) '"' = some (.str acc []) := by simp [delta, keyStart]
     rw [h1, Option.bind_some, run_escape acc [] s]
-    simp only [List.nil_append, List.cons_append]
+    simp only [List.nil_append]
     rw [run_cons]
     have h2 : delta (.str acc s) '"' = some (.done (acc ++ [.inl s])) := by simp [delta]
     rw [h2, Option.bind_some]
@@ -303,11 +303,13 @@ theorem run_segs (items : LPath) (st : St) (acc : LPath) (h : Ready st acc) :
       have e : seg (Sum.inr i) ++ items.flatMap seg = '[' :: (showIntL i ++ ']' :: items.flatMap seg) := by
         simp [seg]
       rw [e, run_cons, ready_lbrack h, Option.bind_some, run_showInt]
-      rw [ih (.done (acc ++ [.inr i])) (acc ++ [.inr i]) (Or.inl rfl)]
+      have hih := ih (St.done (acc ++ [Sum.inr i])) (acc ++ [Sum.inr i]) (Or.inl rfl)
+      rw [hih]
       simp [List.append_assoc]
     | inl s =>
       rw [seg_inl, List.cons_append, run_cons, ready_dot h, Option.bind_some, run_keyBody]
-      rw [ih (keyEnd acc s) (acc ++ [.inl s]) (ready_keyEnd acc s)]
+      have hih := ih (keyEnd acc s) (acc ++ [Sum.inl s]) (ready_keyEnd acc s)
+      rw [hih]
       simp [List.append_assoc]
 
 /-- the round trip over character lists: every path of strings and integers, no side condition -/
